@@ -41,16 +41,16 @@ Proof.
 Qed.
 
 Lemma deliver_cases mc fb rl pub r : p_payload_size pub <= VI_MAX -> len r <= U32MAX ->
-  let plen := p_payload_size pub in
-  (plen <= len r /\
+  (p_payload_size pub <= len r /\
    deliver mc fb rl pub r
-   = (Ok (Some (IPublish pub (firstn (N.to_nat plen) r) rl)), FrameHeader, skipn (N.to_nat plen) r)) \/
-  (len r < plen /\
-   deliver mc fb rl pub r = (Ok (Some (IPublish pub r rl)), PublishPayload (plen - len r), [])) \/
-  (len r < plen /\
-   deliver mc fb rl pub r = (Ok (Some (IPublish pub [] rl)), PublishPayload plen, r)).
+   = (Ok (Some (IPublish pub (firstn (N.to_nat (p_payload_size pub)) r) rl)), FrameHeader,
+      skipn (N.to_nat (p_payload_size pub)) r)) \/
+  (len r < p_payload_size pub /\
+   deliver mc fb rl pub r = (Ok (Some (IPublish pub r rl)), PublishPayload (p_payload_size pub - len r), [])) \/
+  (len r < p_payload_size pub /\
+   deliver mc fb rl pub r = (Ok (Some (IPublish pub [] rl)), PublishPayload (p_payload_size pub), r)).
 Proof.
-  intros Hps Hlr. cbn zeta. unfold deliver. set (plen := p_payload_size pub) in *.
+  intros Hps Hlr. unfold deliver. set (plen := p_payload_size pub) in *.
   rewrite as_u32_small by lia.
   destruct ((plen <=? len r) || (mc =? 0) || (mc <=? len r)) eqn:Ec.
   - unfold split_at. set (kk := N.min (len r) plen).
@@ -113,42 +113,94 @@ Proof.
   unfold run_spec. rewrite events_cons, <- app_assoc. now apply H.
 Qed.
 
+Section PH.
+Context (ms mc : N) (k : nat) (fb rl : N) (src : bytes).
+Hypothesis IH : IHk ms mc k.
+Hypothesis Hok : rl <= VI_MAX.
+Hypothesis Hlen : len src <= U32MAX.
+Hypothesis Hfuel : snd (run ms mc (S k) (PublishHeader fb rl) src) <> OutOfFuel.
+Let goal := run_spec ms (PublishHeader fb rl) src (run ms mc (S k) (PublishHeader fb rl) src).
+
+Lemma ph_need : decode_step ms mc (PublishHeader fb rl) src = (Ok None, PublishHeader fb rl, src) ->
+  parse_pub fb rl src = PNeed -> goal.
+Proof.
+  intros Hp Ep. unfold goal. rewrite (run_S_none ms mc k _ _ _ _ Hp).
+  split; [now apply sem_ph_need|]. intros _ m [=].
+Qed.
+
+Lemma ph_err e r : decode_step ms mc (PublishHeader fb rl) src = (Err e, PublishHeader fb rl, r) ->
+  parse_pub fb rl src = PErr e r -> goal.
+Proof.
+  intros Hp Ep. unfold goal. rewrite (run_S_err ms mc k _ _ _ _ _ Hp).
+  split; [now apply sem_ph_err|]. intros [=].
+Qed.
+
+Lemma ph_ok1 pub r : parse_pub fb rl src = POk pub r ->
+  decode_step ms mc (PublishHeader fb rl) src
+  = (Ok (Some (IPublish pub (firstn (N.to_nat (p_payload_size pub)) r) rl)),
+     FrameHeader, skipn (N.to_nat (p_payload_size pub)) r) ->
+  p_payload_size pub <= len r -> len r <= U32MAX -> goal.
+Proof.
+  intros Ep Hp Hc Hlr'. unfold goal.
+  apply (run_spec_item ms mc k _ _ _ _ _ Hp Hfuel). intros its st' buf' o Er Ho.
+  assert (Hl2 : len (skipn (N.to_nat (p_payload_size pub)) r) <= U32MAX) by (rewrite len_skipn; lia).
+  pose proof (IH FrameHeader _ eq_refl Hl2) as IH'. rewrite Er in IH'. destruct (IH' Ho) as [Hs Hr].
+  split; [|exact Hr]. cbn [events_of app]. eapply sem_ph_ok; [exact Ep|].
+  apply sem_pp_done; [lia|exact Hs].
+Qed.
+
+Lemma ph_ok2 pub r : parse_pub fb rl src = POk pub r ->
+  decode_step ms mc (PublishHeader fb rl) src
+  = (Ok (Some (IPublish pub r rl)), PublishPayload (p_payload_size pub - len r), []) ->
+  len r < p_payload_size pub -> p_payload_size pub <= VI_MAX -> goal.
+Proof.
+  intros Ep Hp Hc Hps. unfold goal.
+  apply (run_spec_item ms mc k _ _ _ _ _ Hp Hfuel). intros its st' buf' o Er Ho.
+  assert (Hd : dstate_ok (PublishPayload (p_payload_size pub - len r)) = true)
+    by (cbn [dstate_ok]; unfold VI_MAX in *; lia).
+  assert (Hl2 : len (@nil N) <= U32MAX) by (rewrite len_nil; unfold U32MAX; lia).
+  pose proof (IH _ _ Hd Hl2) as IH'. rewrite Er in IH'. destruct (IH' Ho) as [Hs Hr].
+  split; [|exact Hr].
+  apply sem_pp_nil in Hs as (HE & Hst1 & Hb1 & Ho'); [|lia].
+  rewrite HE, Hst1, Hb1, Ho'. cbn [events_of]. rewrite app_nil_r.
+  eapply sem_ph_ok; [exact Ep|]. apply sem_pp_need. lia.
+Qed.
+
+Lemma ph_ok3 pub r : parse_pub fb rl src = POk pub r ->
+  decode_step ms mc (PublishHeader fb rl) src
+  = (Ok (Some (IPublish pub [] rl)), PublishPayload (p_payload_size pub), r) ->
+  len r < p_payload_size pub -> p_payload_size pub <= VI_MAX -> len r <= U32MAX -> goal.
+Proof.
+  intros Ep Hp Hc Hps Hlr'. unfold goal.
+  apply (run_spec_item ms mc k _ _ _ _ _ Hp Hfuel). intros its st' buf' o Er Ho.
+  assert (Hd : dstate_ok (PublishPayload (p_payload_size pub)) = true)
+    by (cbn [dstate_ok]; unfold VI_MAX in *; lia).
+  pose proof (IH _ _ Hd Hlr') as IH'. rewrite Er in IH'. destruct (IH' Ho) as [Hs Hr].
+  split; [|exact Hr]. cbn [events_of map app]. eapply sem_ph_ok; [exact Ep|exact Hs].
+Qed.
+
+Lemma ph_all : goal.
+Proof.
+  pose proof (step_publish_header_parse mc fb rl src) as Hp.
+  change (step_publish_header mc fb rl src) with (decode_step ms mc (PublishHeader fb rl) src) in Hp.
+  destruct (parse_pub fb rl src) as [|e r|pub r] eqn:Ep.
+  - now apply ph_need.
+  - now apply (ph_err e r).
+  - destruct (parse_pub_ok_inv fb rl src pub r Hok Ep) as [Hps Hlr].
+    assert (Hlr' : len r <= U32MAX) by lia.
+    destruct (deliver_cases mc fb rl pub r Hps Hlr') as [[Hc E]|[[Hc E]|[Hc E]]]; rewrite E in Hp.
+    + now apply (ph_ok1 pub r).
+    + now apply (ph_ok2 pub r).
+    + now apply (ph_ok3 pub r).
+Qed.
+End PH.
+
 Lemma run_sem_ph ms mc k fb rl src : IHk ms mc k ->
   dstate_ok (PublishHeader fb rl) = true -> len src <= U32MAX ->
   snd (run ms mc (S k) (PublishHeader fb rl) src) <> OutOfFuel ->
   run_spec ms (PublishHeader fb rl) src (run ms mc (S k) (PublishHeader fb rl) src).
 Proof.
-  intros IH Hok Hlen Hfuel. cbn [dstate_ok] in Hok.
-  pose proof (step_publish_header_parse mc fb rl src) as Hp.
-  change (step_publish_header mc fb rl src) with (decode_step ms mc (PublishHeader fb rl) src) in Hp.
-  destruct (parse_pub fb rl src) as [|e r|pub r] eqn:Ep.
-  { rewrite (run_S_none ms mc k (PublishHeader fb rl) src _ _ Hp).
-    split; [now apply sem_ph_need|]. intros _ m [=]. }
-  { rewrite (run_S_err ms mc k (PublishHeader fb rl) src _ _ _ Hp).
-    split; [now apply sem_ph_err|]. intros [=]. }
-  destruct (parse_pub_ok_inv fb rl src pub r ltac:(lia) Ep) as [Hps Hlr].
-  assert (Hlr' : len r <= U32MAX) by lia.
-  destruct (deliver_cases mc fb rl pub r Hps Hlr') as [[Hc E]|[[Hc E]|[Hc E]]]; cbn zeta in *;
-    rewrite E in Hp; clear E.
-  - apply (run_spec_item ms mc k _ _ _ _ _ Hp Hfuel). intros its st' buf' o Er Ho.
-    assert (Hl2 : len (skipn (N.to_nat (p_payload_size pub)) r) <= U32MAX) by (rewrite len_skipn; lia).
-    pose proof (IH FrameHeader _ eq_refl Hl2) as IH'. rewrite Er in IH'. destruct (IH' Ho) as [Hs Hr].
-    split; [|exact Hr]. cbn [events_of app]. eapply sem_ph_ok; [exact Ep|].
-    apply sem_pp_done; [lia|exact Hs].
-  - apply (run_spec_item ms mc k _ _ _ _ _ Hp Hfuel). intros its st' buf' o Er Ho.
-    assert (Hd : dstate_ok (PublishPayload (p_payload_size pub - len r)) = true)
-      by (cbn [dstate_ok]; unfold VI_MAX in *; lia).
-    assert (Hl2 : len (@nil N) <= U32MAX) by (rewrite len_nil; unfold U32MAX; lia).
-    pose proof (IH _ _ Hd Hl2) as IH'. rewrite Er in IH'. destruct (IH' Ho) as [Hs Hr].
-    split; [|exact Hr].
-    apply sem_pp_nil in Hs as (HE & Hst1 & Hb1 & Ho'); [|lia].
-    rewrite HE, Hst1, Hb1, Ho'. cbn [events_of]. rewrite app_nil_r.
-    eapply sem_ph_ok; [exact Ep|]. apply sem_pp_need. lia.
-  - apply (run_spec_item ms mc k _ _ _ _ _ Hp Hfuel). intros its st' buf' o Er Ho.
-    assert (Hd : dstate_ok (PublishPayload (p_payload_size pub)) = true)
-      by (cbn [dstate_ok]; unfold VI_MAX in *; lia).
-    pose proof (IH _ _ Hd Hlr') as IH'. rewrite Er in IH'. destruct (IH' Ho) as [Hs Hr].
-    split; [|exact Hr]. cbn [events_of map app]. eapply sem_ph_ok; [exact Ep|exact Hs].
+  intros IH Hok Hlen Hfuel. cbn [dstate_ok] in Hok. apply ph_all; auto. lia.
 Qed.
 
 Lemma run_sem_pp ms mc k n src : IHk ms mc k ->
@@ -198,3 +250,149 @@ Proof.
     destruct (run ms mc (S k) st r) as [[[its1 st1] buf1] o1]. destruct Hnf as [Hs Hr].
     split; [|exact Hr]. eapply sem_fh_ok; eauto.
 Qed.
+
+(* ------------------------------------------------------------------ reads *)
+Lemma run_shrinks ms mc : forall fuel st buf, len (snd (fst (run ms mc fuel st buf))) <= len buf.
+Proof.
+  induction fuel as [|k IH]; intros st buf; cbn [run]; [cbn; lia|].
+  destruct (v3_step_prefix ms mc st buf) as [c Hc].
+  destruct (decode_step ms mc st buf) as [[[[it|]|e|s] st1] buf1]; cbn [sbuf snd fst] in *;
+    try (apply (f_equal len) in Hc; revert Hc; lens; lia).
+  specialize (IH st1 buf1). destruct (run ms mc k st1 buf1) as [[[its st2] buf2] o]. cbn [fst snd] in *.
+  apply (f_equal len) in Hc. revert Hc. lens. lia.
+Qed.
+
+Lemma feed_spec ms mc st buf c : dstate_ok st = true -> len (buf ++ c) <= U32MAX ->
+  run_spec ms st (buf ++ c) (feed ms mc st buf c).
+Proof.
+  intros Hok Hl. unfold feed. apply run_sem; auto. apply (v3_feed_fuel_suffices ms mc st buf c).
+Qed.
+
+Lemma flush_sem ms st1 buf1 x E s b o : rest_ok NeedMore st1 buf1 -> sem ms st1 (buf1 ++ x) E s b o ->
+  exists E', E = pending st1 buf1 ++ E' /\ sem ms (fst (flush st1 buf1)) (snd (flush st1 buf1) ++ x) E' s b o.
+Proof.
+  intros Hr H. destruct st1 as [| | |n]; try (exists E; split; [reflexivity|exact H]).
+  specialize (Hr eq_refl n eq_refl). cbn [pending flush]. replace (len buf1 <? n) with true by lia.
+  cbn [fst snd app]. rewrite firstn_all2 by (rewrite <- len_length; lia).
+  now apply sem_unflush.
+Qed.
+
+Lemma feeds_sem ms mc : forall chunks st buf its st' buf' o,
+  chunks <> [] -> dstate_ok st = true -> len (buf ++ concat chunks) <= U32MAX ->
+  feeds ms mc st buf chunks = (its, st', buf', o) ->
+  exists bf, sem ms st (buf ++ concat chunks) (events its ++ pending st' buf') (fst (flush st' buf')) bf o /\
+             (o = NeedMore -> bf = snd (flush st' buf')) /\ rest_ok o st' buf'.
+Proof.
+  induction chunks as [|c cs IH]; intros st buf its st' buf' o Hne Hok Hl H; [congruence|].
+  cbn [feeds concat] in *.
+  pose proof (feed_spec ms mc st buf c Hok ltac:(revert Hl; lens; lia)) as Hs1.
+  pose proof (proj1 (v3_feed_fuel_suffices ms mc st buf c)) as Hf1.
+  pose proof (v3_feed_never_panics ms mc st buf c) as Hp1.
+  pose proof (run_shrinks ms mc (feed_fuel (buf ++ c)) st (buf ++ c)) as Hsh. fold (feed ms mc st buf c) in Hsh.
+  destruct (feed ms mc st buf c) as [[[its1 st1] buf1] o1] eqn:E1. cbn [fst snd] in *.
+  destruct (run_track _ _ _ _ _ _ _ _ _ Hok E1) as [_ Hok1].
+  destruct Hs1 as [Hs1 Hr1].
+  destruct o1 as [|e|s|]; [| | elim (Hp1 s); reflexivity | elim Hf1; reflexivity].
+  - destruct cs as [|c2 cs'].
+    + cbn [feeds] in H. injection H as <- <- <- <-. cbn [concat]. rewrite !app_nil_r.
+      exists (snd (flush st1 buf1)). auto.
+    + destruct (feeds ms mc st1 buf1 (c2 :: cs')) as [[[its2 st2] buf2] o2] eqn:E2.
+      injection H as <- <- <- <-.
+      destruct (IH st1 buf1 its2 st2 buf2 o2 ltac:(discriminate) Hok1 ltac:(revert Hl Hsh; lens; lia) E2)
+        as (bf & Hs2 & Hb2 & Hr2).
+      destruct (flush_sem ms st1 buf1 _ _ _ _ _ Hr1 Hs2) as (E' & HE & Hs2').
+      exists bf. split; [|auto].
+      rewrite (app_assoc buf c). rewrite events_app, <- (app_assoc (events its1)), HE, (app_assoc (events its1)).
+      eapply sem_app_need; eauto.
+  - injection H as <- <- <- <-.
+    exists (snd (flush st1 buf1) ++ concat cs). split; [|split; [discriminate|exact Hr1]].
+    rewrite (app_assoc buf c). eapply sem_app_fail; eauto.
+Qed.
+
+(* everything a decoder has seen of the stream: what it delivered, plus the payload bytes of the
+   PUBLISH in progress that it is still holding back *)
+Definition closure (r : list item * dstate * bytes * outcome) : list ev :=
+  let '(its, st, buf, _) := r in events its ++ pending st buf.
+Definition outcome_of (r : list item * dstate * bytes * outcome) : outcome := snd r.
+Definition rest_of (r : list item * dstate * bytes * outcome) : dstate * bytes :=
+  let '(_, st, buf, _) := r in flush st buf.
+
+(* C10: any cutting of the stream into reads, under any min_chunk setting, against reading it at once
+   under any other min_chunk setting: same events, same outcome, same decoder afterwards *)
+Lemma v3_frag_independent : forall ms mc mc' chunks st buf,
+  chunks <> [] -> dstate_ok st = true -> len (buf ++ concat chunks) <= U32MAX ->
+  let chunked := feeds ms mc st buf chunks in
+  let at_once := feed ms mc' st buf (concat chunks) in
+  closure chunked = closure at_once /\
+  outcome_of chunked = outcome_of at_once /\
+  (outcome_of chunked = NeedMore -> rest_of chunked = rest_of at_once).
+Proof.
+  intros ms mc mc' chunks st buf Hne Hok Hl. cbn zeta.
+  destruct (feeds ms mc st buf chunks) as [[[its1 st1] buf1] o1] eqn:E1.
+  destruct (feeds_sem ms mc chunks st buf _ _ _ _ Hne Hok Hl E1) as (bf & Hs1 & Hb1 & _).
+  pose proof (feed_spec ms mc' st buf (concat chunks) Hok Hl) as Hs2.
+  destruct (feed ms mc' st buf (concat chunks)) as [[[its2 st2] buf2] o2]. destruct Hs2 as [Hs2 _].
+  destruct (sem_det _ _ _ _ _ _ _ Hs1 _ _ _ _ Hs2) as (HE & Hst & Hbf & Ho).
+  unfold closure, outcome_of, rest_of. cbn [snd]. repeat split; auto.
+  intros Hn. specialize (Hb1 Hn). subst bf.
+  destruct (flush st1 buf1), (flush st2 buf2). cbn [fst snd] in *. congruence.
+Qed.
+
+(* ------------------------------------------------------------------ normalised view *)
+Inductive nitem :=
+| NPacket (p : packet) (rl : N)
+| NPublish (p : publish) (payload : bytes) (rl : N)
+| NStray (payload : bytes).
+
+(* glue the payload pieces of each PUBLISH together *)
+Fixpoint regroup (evs : list ev) : list nitem :=
+  match evs with
+  | [] => []
+  | EvPacket p rl :: r => NPacket p rl :: regroup r
+  | EvPublish p rl :: r =>
+    match regroup r with NStray pl :: r' => NPublish p pl rl :: r' | r' => NPublish p [] rl :: r' end
+  | EvByte b :: r =>
+    match regroup r with NStray pl :: r' => NStray (b :: pl) :: r' | r' => NStray [b] :: r' end
+  end.
+Definition normalise (its : list item) : list nitem := regroup (events its).
+Definition items (r : list item * dstate * bytes * outcome) : list item := fst (fst (fst r)).
+
+(* when reading at once ends between payloads, the delivered items agree exactly *)
+Lemma v3_frag_independent_normalised : forall ms mc mc' chunks st buf,
+  chunks <> [] -> dstate_ok st = true -> len (buf ++ concat chunks) <= U32MAX ->
+  let chunked := feeds ms mc st buf chunks in
+  let at_once := feed ms mc' st buf (concat chunks) in
+  outcome_of at_once = NeedMore -> owed_of (snd (fst (fst at_once))) = 0 ->
+  normalise (items chunked) = normalise (items at_once).
+Proof.
+  intros ms mc mc' chunks st buf Hne Hok Hl. cbn zeta. intros Ho Hw.
+  destruct (v3_frag_independent ms mc mc' chunks st buf Hne Hok Hl) as (HE & Ho' & Hrest).
+  destruct (feeds ms mc st buf chunks) as [[[its1 st1] buf1] o1] eqn:E1.
+  destruct (feeds_sem ms mc chunks st buf _ _ _ _ Hne Hok Hl E1) as (_ & _ & _ & Hr1).
+  pose proof (feed_spec ms mc' st buf (concat chunks) Hok Hl) as Hs2.
+  pose proof (run_track ms mc' (feed_fuel (buf ++ concat chunks)) st (buf ++ concat chunks)) as Ht.
+  fold (feed ms mc' st buf (concat chunks)) in Ht.
+  destruct (feed ms mc' st buf (concat chunks)) as [[[its2 st2] buf2] o2].
+  destruct (Ht _ _ _ _ Hok eq_refl) as [_ Hok2]. clear Ht.
+  unfold closure, outcome_of, rest_of, items, normalise in *. cbn [fst snd] in *. subst o2 o1.
+  specialize (Hrest eq_refl).
+  assert (P2 : pending st2 buf2 = [] /\ flush st2 buf2 = (st2, buf2)).
+  { destruct st2 as [| | |n]; cbn [owed_of dstate_ok] in *; try (split; reflexivity). lia. }
+  destruct P2 as [P2 F2]. rewrite F2 in Hrest.
+  assert (P1 : pending st1 buf1 = []).
+  { destruct st1 as [| | |n]; try reflexivity. specialize (Hr1 eq_refl n eq_refl).
+    cbn [flush] in Hrest. replace (len buf1 <? n) with true in Hrest by lia. injection Hrest as <- _.
+    cbn [owed_of dstate_ok] in *. lia. }
+  rewrite P1, P2, !app_nil_r in HE. now rewrite HE.
+Qed.
+
+(* The plain statement "normalise (chunked) = normalise (at once)" is false when the stream ends inside a
+   payload: with min_chunk = 0 the payload state waits for the whole rest, while the header state hands
+   over whatever is there.  10-byte payload, reads of (header + 2 bytes) and 3 bytes: *)
+Lemma v3_frag_independent_refuted :
+  let chunks := [[48; 13; 0; 1; 116; 1; 2]; [3; 4; 5]] in
+  normalise (items (feeds 0 0 FrameHeader [] chunks))
+    = [NPublish (mkPublish false false AtMostOnce [116] None 10) [1; 2] 13] /\
+  normalise (items (feed 0 0 FrameHeader [] (concat chunks)))
+    = [NPublish (mkPublish false false AtMostOnce [116] None 10) [1; 2; 3; 4; 5] 13].
+Proof. split; vm_compute; reflexivity. Qed.
